@@ -4,7 +4,7 @@
    representable (Fuel); the theorems say neither happens. *)
 From Coq Require Import List ZArith.
 From RtoscV Require Import Osc.OscModel Osc.OscEncProofs Osc.OscReadProofs Osc.OscLenProofs
-  Osc.OscTotalProofs Osc.OscRegress.
+  Osc.OscTotalProofs Osc.OscValidProofs Osc.OscRegress.
 Import ListNotations.
 Local Open Scope Z_scope.
 
@@ -26,17 +26,36 @@ Theorem C07_valid_total : forall m,
   bytes_ok m -> zlen m < W32 - 16 -> exists b, valid_message_p m (zlen m) = Ok b.
 Proof. exact valid_message_total. Qed.
 
-(* accessors on accepted buffers - PARTIAL.  Full statement (not proved):
-     forall m, valid_message_p m (zlen m) = Ok true ->
-       arg_string / narguments / type_at / argument / itr_all m are all Ok,
-       designate payloads inside m and agree with the reference decoder.
-   Proved: for every canonical encoding (the image of the OSC 1.0 encoder,
-   any address/tags/arguments) the accessors are Ok and return the encoded
-   types and values (this is the decoder being the inverse of enc_spec).
-   The gap - accepted but non-canonical buffers - is covered by the
-   correspondence run (exhaustive short buffers, structure-aware mutations,
-   under ASan) and by the independent Python decoder, not by a theorem. *)
-Theorem C07_valid_safe_partial : forall a tags args rest,
+(* whenever the validity predicate accepts an ARBITRARY buffer (n < 2^27),
+   every accessor - argument string, count, iterator, type and argument by
+   index - succeeds, i.e. reads only inside the n bytes (a read outside is Oob
+   in the model), and the string and blob payloads they designate lie inside
+   the buffer ([payload_inside]: a string has its terminator inside, a blob
+   has off + len <= n); the count equals the number of items the iterator
+   yields and the types are the tags with brackets dropped *)
+Theorem C07_valid_safe : forall m,
+  bytes_ok m -> zlen m < 134217728 ->
+  valid_message_p m (zlen m) = Ok true ->
+  exists s tags l,
+    arg_string m = Ok s /\ cstr_at m s = Ok tags /\
+    narguments m = Ok (count_nonbracket tags) /\
+    itr_all m = Ok l /\ zlen l = count_nonbracket tags /\
+    map fst l = filter (fun t => negb (is_bracket t)) tags /\
+    Forall (payload_inside m) (map snd l) /\
+    forall idx, 0 <= idx < count_nonbracket tags ->
+      exists t v, nth_error l (Z.to_nat idx) = Some (t, v) /\
+                  type_at m idx = Ok t /\ argument m idx = Ok v.
+Proof. exact valid_accessors_safe. Qed.
+
+(* "... and returns what an independent OSC decoder returns" - PARTIAL.
+   Proved: by C07_valid_safe the by-index accessors and the count agree with
+   the iterator on every accepted buffer (one decoding, however it is read),
+   and on every canonical encoding (the image of the OSC 1.0 encoder) that
+   decoding is the inverse of the encoder: the original types and values.
+   Not proved: equality with a separately written reference decoder on
+   accepted NON-canonical buffers (non-NUL padding, unknown tags); there the
+   independent Python decoder of the correspondence run is the oracle. *)
+Theorem C07_valid_decodes_partial : forall a tags args rest,
   msg_wf a tags args ->
   itr_all (enc_spec a tags args ++ rest) = Ok (dec_spec tags args (args_off a tags)) /\
   narguments (enc_spec a tags args ++ rest) = Ok (count_nonbracket tags) /\
